@@ -61,7 +61,7 @@ type inst struct {
 }
 
 type stats struct {
-	Files, Probes, GoStmts, MapRanges, MapRangesSkipped, AccessProbes, ImportSwaps, ChanOps, ChanOpsSkipped, StateVars int
+	Files, Probes, GoStmts, MapRanges, MapRangesSkipped, AccessProbes, ImportSwaps, ChanOps, ChanOpsSkipped, StateVars, NoteKeys int
 	Skipped                                                                        []string
 }
 
@@ -438,10 +438,61 @@ func (in *inst) list(list []ast.Stmt, force bool, pos token.Pos) []ast.Stmt {
 	}
 	for _, s := range list {
 		out = append(out, in.probe(s.Pos()))
+		out = append(out, in.noteKeys(s)...)
 		out = append(out, in.accessProbes(s)...)
 		out = append(out, in.rewriteStmt(s))
 	}
 	return out
+}
+
+// noteKeys: before `m[k] = v` with a pointer- or interface-typed key, tell the
+// simulator about the key so that map iteration order does not depend on addresses
+// or on ids computed by the program.
+func (in *inst) noteKeys(s ast.Stmt) []ast.Stmt {
+	as, ok := s.(*ast.AssignStmt)
+	if !ok {
+		return nil
+	}
+	var out []ast.Stmt
+	for _, l := range as.Lhs {
+		ix, ok := l.(*ast.IndexExpr)
+		if !ok {
+			continue
+		}
+		tv, ok := in.info.Types[ix.X]
+		if !ok {
+			continue
+		}
+		mt, ok := tv.Type.Underlying().(*types.Map)
+		if !ok {
+			continue
+		}
+		switch mt.Key().Underlying().(type) {
+		case *types.Pointer, *types.Interface, *types.Chan, *types.Signature:
+		default:
+			continue
+		}
+		if !sideEffectFree(ix.Index) {
+			continue
+		}
+		in.stats.NoteKeys++
+		out = append(out, &ast.ExprStmt{X: &ast.CallExpr{Fun: sel("simrt", "NoteKey"), Args: []ast.Expr{ix.Index}}})
+	}
+	return out
+}
+
+func sideEffectFree(e ast.Expr) bool {
+	switch x := e.(type) {
+	case *ast.Ident, *ast.BasicLit:
+		return true
+	case *ast.SelectorExpr:
+		return sideEffectFree(x.X)
+	case *ast.ParenExpr:
+		return sideEffectFree(x.X)
+	case *ast.StarExpr:
+		return sideEffectFree(x.X)
+	}
+	return false
 }
 
 func (in *inst) tmp(prefix string) string {
